@@ -48,6 +48,8 @@ func main() {
 		return
 	}
 	switch os.Args[1] {
+	case "algdiff":
+		runAlgDiff(os.Args[2], seed, tier)
 	case "boarddiff":
 		runBoardDiff(os.Args[2], seed, tier)
 	case "fsmdiff":
